@@ -97,9 +97,12 @@ def parse_pairs(s):
 def run(c):
     thorough = c.tier == "thorough"
     c.rule = ("generated typed quasigo programs (1-4 functions: nested if/else ending in returns, loops with break, calls and "
-              "natives in every operand position, ||/&& in every expression position, up to 8 locals) x argument tuples; a case is "
-              "one (program, function, argument tuple); non-trivial and distinct by (construct set of the program, result kind, "
-              "panic/normal) and per program by its bytecode")
+              "natives in every operand position, ||/&& in every expression position, up to 8 locals) x argument tuples, and histories "
+              "(2-4 units declaring the same function names compiled into one Env one after the other: generated, template, "
+              "re-loaded, reversed and rejected units; functions of earlier units called after later units were compiled); a case is "
+              "one (program or history, function, argument tuple); non-trivial and distinct by (construct set, result kind, "
+              "panic/normal), per program by its bytecode, per history by its sequence of unit kinds; engine level: "
+              "(rule group, probe site) pairs of the dsl/types differential, distinct per pair name with both verdicts seen")
     c.trusted += [
         "go2coq quasigo / quasigoenv (read opcodes.gen.go, isUncondJump, bindLabel, eval's call cases, native bodies and dsl declarations, "
         "the bodies of Env.addFunc/RemoveFunc and the shape of the other Env accessors and of irLoader.compileFilterFuncs syntactically)",
@@ -108,6 +111,7 @@ def run(c):
         "harness/cmd/c04dsl (engine-level differential for the dsl/types natives) and go/types",
     ]
     c.notes += ["forward simulation for terminating runs; divergence preservation is not proved",
+                "the Env model covers the user-function table and name binding; native tables are fixed at engine construction",
                 "natives are oracles: their results are taken from the traced real calls"]
 
     c.build_theories()
@@ -321,7 +325,11 @@ def run(c):
                        input={"pair": o.get("pair"), "site": o.get("site"), "file": o.get("file"), "off": o.get("off"), "seed": seed},
                        expected={"builtin": o.get("builtin")}, observed={"custom": o.get("custom")})
             elif k == "direct" and o.get("expected") != o.get("observed"):
-                c.fail("oracle", "dsl/types helper returns something else than go/types",
+                what = "dsl/types helper returns something else than go/types"
+                if str(o.get("what", "")).startswith("multi["):
+                    what = ("a custom filter / Do function of a rules file loaded into one engine with other files (equal-named "
+                            "helper functions) does not compute what the file means alone")
+                c.fail("oracle", what,
                        input={"what": o.get("what"), "site": o.get("site"), "file": o.get("file"), "off": o.get("off"), "seed": seed},
                        expected=o.get("expected"), observed=o.get("observed"))
             elif k == "panic":
@@ -335,7 +343,7 @@ def run(c):
             c.obligation("harness-run:c04dsl", False, out[-2000:])
             return
         c.count(summ["pair_cases"] + summ["direct_cases"])
-        for k in ("sites", "pairs", "groups", "pair_cases", "direct_cases", "accepted_both", "rejected_both"):
+        for k in ("sites", "pairs", "groups", "pair_cases", "direct_cases", "accepted_both", "rejected_both", "multi_file_cases"):
             c.coverage["dsl_" + k] = c.coverage.get("dsl_" + k, 0) + summ[k]
 
     dsl_differential(c.seed, 4 if not thorough else 24, "main")
